@@ -179,6 +179,26 @@ func VH_C08_net() {
 	zzverif.Reach("C08/net")
 }
 
+const vB64 = "ABCDEFGHIJKLMNOPQRSTUVWXYZabcdefghijklmnopqrstuvwxyz0123456789+/"
+
+// vRefBase64: RFC 4648 section 4 (standard alphabet, padded), written out independently.
+func vRefBase64(b []byte) []byte {
+	out := []byte{}
+	for i := 0; i+2 < len(b); i += 3 {
+		v := uint(b[i])<<16 | uint(b[i+1])<<8 | uint(b[i+2])
+		out = append(out, vB64[v>>18&63], vB64[v>>12&63], vB64[v>>6&63], vB64[v&63])
+	}
+	switch len(b) % 3 {
+	case 1:
+		v := uint(b[len(b)-1]) << 16
+		out = append(out, vB64[v>>18&63], vB64[v>>12&63], '=', '=')
+	case 2:
+		v := uint(b[len(b)-2])<<16 | uint(b[len(b)-1])<<8
+		out = append(out, vB64[v>>18&63], vB64[v>>12&63], vB64[v>>6&63], '=')
+	}
+	return out
+}
+
 func VH_C08_embedded() {
 	switch zzverif.Choice(2) {
 	case 0:
@@ -193,6 +213,7 @@ func VH_C08_embedded() {
 		pre := []byte(`"data:application/cbor;base64,`)
 		zzverif.Assert(len(d) >= len(pre)+1 && zzverif.EqualBytes(d[:len(pre)], pre) && d[len(d)-1] == '"', "RawCBOR decodes to the documented data URL")
 		zzverif.Assert(len(d) == len(pre)+1+(len(b)+2)/3*4, "RawCBOR data URL has the base64 length of the payload")
+		zzverif.Assert(zzverif.EqualBytes(d[len(pre):len(d)-1], vRefBase64(b)), "RawCBOR decodes to the standard (RFC 4648 section 4, padded) base64 of the payload, as the JSON build writes it")
 	}
 	zzverif.Reach("C08/embedded")
 }
